@@ -363,6 +363,10 @@ def generate(rng, tier):
             first_part = b'\x00' * 7 + b'\x40' + b'\x00' * 6 + b'\x00\x00' + b'\x08' + b'\x05\x00\x03\x4d\x02\x01ab'
             items.insert(age_at, (pdu(5, 0, 0x8fff, first_part), 'first-part-before-the-pause'))
             age_at += 1
+            # ... and whatever the draw of age_at, one receipt comes after the pause: the sweep over the aged stores runs
+            late = 'id:late sub:001 dlvrd:001 submit date:2501011200 done date:2501011201 stat:DELIVRD err:000 text:x'
+            items.append((pdu(5, 0, 0x8ffe, b'\x00' * 7 + b'\x04' + b'\x00' * 6 + b'\x00\x00' + bytes([len(late)]) + late.encode()),
+                          'receipt-after-the-pause'))
         obs, early, exc = batch([p for p, _ in items], default, [t for _, t in items], presubmit=texts, age=age, age_at=age_at)
         for (p, tag), o in zip(items, obs):
             fail = predicate(p, o, cmds, stats, reqs)
